@@ -666,12 +666,47 @@ void scenarioOffPending(World &w, vh::Rng &rng) {
     Point a, b; if (randPoint(w, rng, a) && randPoint(w, rng, b) && !(a == b)) opNewConn(w, rng, a, b, false);
 }
 
+// Witness of Props/C06Reroute `removal_estimate_incomplete_witness` (not part of any tier; replay with
+// --only 1000000+v): the could-be-shorter estimate of markPolylineConnectorsNeedingReroutingForDeletedObstacle
+// is >= the current route length for all four sides of O although deleting O (or moving it away) opens a
+// strictly shorter route; the current route bends at B only, so no edge alert fires either.
+void scenarioHeuristicMiss(World &w, vh::Rng &rng, long v) {
+    static const double S[][12] = {        // O x0 y0 x1 y1 | B x0 y0 x1 y1 | src | dst
+        {0, 0, 10, 11,  11, 3, 15, 6,   0, -6,  18, 10},
+        {0, 0, 14, 14,  -5, 6, -4, 12,  -12, 3,  16, 22},
+        {0, 0, 12, 10,  15, 1, 22, 5,   0, 17,  23, -1},
+        {0, 0, 6, 6,    9, -1, 10, 3,   -8, 19,  19, -10}};
+    const double *q = S[(v / 2) % 4], off = 40;
+    opAddShape(w, rng, Rc{q[0] + off, q[1] + off, q[2] + off, q[3] + off}); unsigned o = w.obs.back().id;
+    opAddShape(w, rng, Rc{q[4] + off, q[5] + off, q[6] + off, q[7] + off});
+    opNewConn(w, rng, Point(q[8] + off, q[9] + off), Point(q[10] + off, q[11] + off), true);
+    opProcess(w, rng);
+    if (v % 2 == 0) opDelete(w, rng, o); else opMoveRel(w, rng, o, 0, 200);
+    opProcess(w, rng, true);
+}
+
 } // namespace
 
 static void runCase(const vh::Args &a, long k) {
     static const char *tags[] = {"unblock-untouched", "unblock-touched", "block", "txn-off-pending",
                                  "rand-poly", "rand-orth", "rand-poly-off", "rand-orth-off", "block-diagonal",
                                  "unblock-one-side", "buffer-endpoint", "buffer-endpoint-behind"};
+    if (k >= 1000000) {
+        vh::Rng rng = vh::caseRng(a.seed, k);
+        World w;
+        vh::beginCase(k, "witness-removal-estimate");
+        printf("cfg poly %s 1 %s\n", vh::hx(0).c_str(), vh::hx(0).c_str()); fflush(stdout);
+        w.router = mkRouter(false, 0, 0);
+#ifdef ADAPTAGRAMS_VERIF_REROUTE_HOOK
+        g_hookRouter = w.router; g_hookRecs.clear(); verifRerouteSink = rerouteSink;
+#endif
+        scenarioHeuristicMiss(w, rng, k - 1000000);
+        opProcess(w, rng);
+        printf("done\n");
+        delete w.router;
+        vh::endCase();
+        return;
+    }
     {
         vh::Rng rng = vh::caseRng(a.seed, k);
         int cls;
